@@ -483,11 +483,12 @@ def processSyncAggregate (cfg : Config) (ctx : Ctx) (s : State) (agg : SyncAggre
   syncLoop participantReward proposerReward proposer (indices.take cfg.SYNC_COMMITTEE_SIZE)
     (agg.sync_committee_bits.take cfg.SYNC_COMMITTEE_SIZE) s
 
-/-- `spec.TimeAtSlot` -/
+/-- `spec.TimeAtSlot` (the regenerated translation `Gen.GoFuns.TimeAtSlot` is C19's subject): division by
+`SECONDS_PER_SLOT`, refusal above the quotient, otherwise the (then non-wrapping) product plus genesis time -/
 def timeAtSlot (cfg : Config) (slot genesisTime : Nat) : Res Nat :=
-  if cfg.SECONDS_PER_SLOT ≠ 0 ∧ slot > (2 ^ 64 - 1 - genesisTime) / cfg.SECONDS_PER_SLOT then .err
-  else if genesisTime + slot * cfg.SECONDS_PER_SLOT ≥ 2 ^ 64 then .err
-  else .ok (genesisTime + slot * cfg.SECONDS_PER_SLOT)
+  if cfg.SECONDS_PER_SLOT = 0 then .panic
+  else if slot > (2 ^ 64 - 1 - genesisTime) / cfg.SECONDS_PER_SLOT then .err
+  else .ok (w64 (w64 (slot * cfg.SECONDS_PER_SLOT) + genesisTime))
 
 /-- `{bellatrix,capella,deneb}.ProcessExecutionPayload` (with the extra-data length check) -/
 def processExecutionPayload (cfg : Config) (s : State) (block : SignedBlock) (payload : ExecutionPayload) : Res State := do
